@@ -622,6 +622,7 @@ def c13_streams(tier, rng):
                 dense.append(("dn%d_%d_%s_b%d" % (len(alpha), maxlen, kind, b), "dict", kind, {"b": b}, U, ops))
     return base + [StreamSet("dense", "asan", dense),
                    StreamSet("fm-layer", "asan", fm_cases(tier, rng, 24 if tier == "thorough" else 6), phase2=fm_phase2, timeout=90),
+                   StreamSet("rpfc-layer", "asan", rpfc_cases(tier, rng, 24 if tier == "thorough" else 6), phase2=rpfc_phase2, timeout=90),
                    StreamSet("scale", "asan", scale_cases(tier, rng, scale_ops_table), timeout=600)]
 
 
